@@ -2188,6 +2188,9 @@ void
 BitArrayT<NCapacity>::set() noexcept {
 	for (uint8_t& unit : _storage)
 		unit = UINT8_MAX;
+
+	if (CAPACITY % 8 != 0)
+		_storage[UNIT_COUNT - 1] = static_cast<uint8_t>((1 << (CAPACITY % 8)) - 1);
 }
 
 template <unsigned NCapacity>
